@@ -34,7 +34,13 @@ impl Timestamp {
     let offset_date_time = OffsetDateTime::parse(input, &Rfc3339)
       .map_err(time::Error::from)
       .map_err(Error::InvalidTimestamp)?
-      .to_offset(UtcOffset::UTC);
+      .checked_to_offset(UtcOffset::UTC)
+      // Normalising to UTC can leave the years 0000AD - 9999AD (e.g. `9999-12-31T23:59:59-01:00`,
+      // `0000-01-01T00:00:00+01:00`): reject like `from_unix` does, so that `to_rfc3339` stays infallible.
+      .filter(|offset_date_time| (0..10_000).contains(&offset_date_time.year()))
+      .ok_or(Error::InvalidTimestamp(time::error::Error::Format(
+        time::error::Format::InvalidComponent("invalid year"),
+      )))?;
     Ok(Timestamp(truncate_fractional_seconds(offset_date_time)))
   }
 
